@@ -685,16 +685,17 @@ def stmt_holds(s, ctx):
     if k == "soft":
         return True
     if k == "dist":
-        items = []
+        items, zero = [], []
         for item, wexpr in s[2]:
             wv = ev_self(wexpr, ctx)
             if wv < 0:
                 raise Corner("negative dist weight")
-            if wv != 0:
-                items.append(item)
+            (items if wv != 0 else zero).append(item)
         if not items:
             raise Corner("dist with no non-zero weight")
-        return member(s[1], items, ctx)
+        # listed with a non-zero weight, and not named by any zero-weight entry ("zero weight means never",
+        # also when the zero-weight entry punches a hole into a listed range)
+        return member(s[1], items, ctx) and not (zero and member(s[1], zero, ctx))
     if k == "fe":
         lp = ctx.abs(s[1])
         n = len(_read_list(ctx, lp))
